@@ -57,8 +57,17 @@ def slowEq (k : TKind) (a b : Tmp) : TE :=
   | some r => (r, true)
   | none => if k == .dateTime && prec k a == prec k b then (true, true) else (false, false)
 
+/-- the layout of an hour-precision DateTime that carries an offset: the one layout in which two
+    values of equal layout can agree on every component after offset normalisation and still be
+    different instants (`T10+00:30` and `T09Z`) -/
+def hourOffsetLayout : String := "2006-01-02T15Z07:00"
+
+/-- the instants are compared directly when both values have the same layout and the offset cannot
+    move a component below the precision -/
+def instPath (a b : Tmp) : Bool := a.layout == b.layout && a.layout != hourOffsetLayout
+
 def tmpTryEqual (k : TKind) (a b : Tmp) : TE :=
-  if a.layout == b.layout then (a.inst == b.inst, true) else slowEq k a b
+  if instPath a b then (a.inst == b.inst, true) else slowEq k a b
 
 /-- the component-wise path of Less (layouts differ) -/
 def slowLess (k : TKind) (a b : Tmp) : Except String Bool :=
@@ -68,7 +77,7 @@ def slowLess (k : TKind) (a b : Tmp) : Except String Bool :=
 
 /-- `Less`: value, or the named error -/
 def tmpLess (k : TKind) (a b : Tmp) : Except String Bool :=
-  if a.layout == b.layout then .ok (lexLt a.inst b.inst) else slowLess k a b
+  if instPath a b then .ok (lexLt a.inst b.inst) else slowLess k a b
 
 /-- `system.TryEqual` on already-normalised values -/
 def valTryEqual (a b : Val) : TE :=
